@@ -201,8 +201,12 @@ def run(prop, tier, seed, replay):
             # ---- explicit re-seeding: ONE generator object run through several seeds (0 included) gives, for each seed, the
             #      points of a fresh generator with that seed
             for win in windows[:3]:
-                g = BoxRandoms(*win, seed=4242)
-                g(5)
+                try:
+                    g = BoxRandoms(*win, seed=4242)
+                    g(5)
+                except Exception as e:  # noqa: BLE001
+                    ck.add_violation(f"generating random points over the window {win} raised {type(e).__name__}: {e}", {"window": win})
+                    continue
                 for sd in (3, 0, 17, 0, 2 ** 31 - 1):
                     g.reseed(sd)
                     got = g(33)
@@ -216,6 +220,11 @@ def run(prop, tier, seed, replay):
             #      and what `_draw_coords` does with the two uniform variates, observed through a recording generator
             for win in windows:
                 g = BoxRandoms(*win, seed=5)
+                try:
+                    g._draw_coords(3)
+                except Exception as e:  # noqa: BLE001
+                    ck.add_violation(f"generating random points over the window {win} raised {type(e).__name__}: {e}", {"window": win})
+                    continue
                 ra0, ra1, d0, d1 = (np.deg2rad(x) for x in win)
                 lim_model = (ra0, ra1, np.sin(d0), np.sin(d1))          # boxXMin boxXMax boxYMin boxYMax
                 lim_impl = (g.x_min, g.x_max, g.y_min, g.y_max)
